@@ -71,8 +71,8 @@ def verifyAuth (c : AuthCred) (e : AuthExpect) : M VerifiedAuth := do
   let ad ← liftE (parseAuthData c.authenticatorData)
   let rpHash ← sha256M (utf8 e.rpId)
   reject (ad.rpIdHash != rpHash) (authErr "auth.rpid-hash")
-  reject (authUpRejects ad.flags.up) (authErr "auth.up")
-  reject (authUvRejects e.requireUV ad.flags.uv) (authErr "auth.uv")
+  reject (authUpRejects e.requireUV ad.flags.up ad.flags.uv) (authErr "auth.up")
+  reject (authUvRejects e.requireUV ad.flags.up ad.flags.uv) (authErr "auth.uv")
   reject (signCountRejects ad.signCount e.currentSignCount) (authErr "auth.sign-count")
   let cdHash ← sha256M c.clientDataJSON
   let key ← liftE (decodeCose e.publicKey)
